@@ -216,7 +216,7 @@ static void op_rt(char **a, int n) {
         if((size_t)e != sk.n) outf(" sizemismatch%d=%zd/%zu", i, e, sk.n);
         /* decode from an exact-size copy */
         uint8_t *copy = (uint8_t *)malloc(sk.n ? sk.n : 1);
-        memcpy(copy, sk.p, sk.n);
+        if(sk.n) memcpy(copy, sk.p, sk.n);
         void *next = 0;
         asn_dec_rval_t rv = asn_decode(0, ats, td, &next, copy, sk.n);
         free(copy);
